@@ -494,7 +494,7 @@ class _VersionIndependentUnmarshaller:
         self.is_pypy = self.magic_int in PYPY3_MAGICS
 
         # FIXME: Check/verify that is true:
-        bytes_for_s = PYTHON_VERSION_TRIPLE >= (3, 0) and (self.version_tuple > (3, 0))
+        bytes_for_s = PYTHON_VERSION_TRIPLE >= (3, 0) and (self.version_tuple >= (3, 0))
         if self.is_graal:
             co_consts = tuple()
             co_names = tuple()
@@ -581,7 +581,8 @@ class _VersionIndependentUnmarshaller:
                 )
                 co_exceptiontable = self.r_object(bytes_for_s=bytes_for_s)
             else:
-                co_lnotab = self.r_object(bytes_for_s=bytes_for_s)
+                # a line table is bytes, whatever the string type of the version
+                co_lnotab = self.r_object(bytes_for_s=True)
         else:
             # < 1.5 there is no lnotab, so no firstlineno.
             # SET_LINENO is used instead.
